@@ -5,7 +5,8 @@ OffsetFetch at the simulated group coordinator; without: group-less) against the
 (vf.scen_consumer), one partition led by broker 0, coordinator on broker 1.
 
 Grid (exhaustive): committed in {absent, inside, at a transaction marker, above the last stable offset, == log end,
-below the log start, beyond the log end} x policy {earliest, latest, none} x isolation level x {group + assign,
+below the log start, beyond the log end, exactly 0 (below the start of the truncated log / the first record of an
+untruncated one)} x policy {earliest, latest, none} x isolation level x {group + assign,
 group-less} x ListOffsets version cap v0..v3 (v0/v1 brokers: legacy-format log, read_uncommitted only - such brokers
 store no transactions and aiokafka refuses read_committed against them at request-build time) x a log whose start
 was advanced by retention (log start 2) and that ends in an open transaction (LSO 5 < HW 7).
@@ -21,6 +22,8 @@ Families
   G  grid x program {getone(tp) | position(tp)} on the default schedule plus f<=1 (retriable codes OffsetFetch 14/16/15,
      ListOffsets 6/3/5, FindCoordinator 15; drop-before/after, lost reply) and r<=1; thorough: r<=1 and f<=1 together on
      the v2/v3 cells, p<=1 everywhere
+  T  two partitions (leaders on different brokers) whose committed-offset lookups are staggered by a late leader election
+     and a slow coordinator reply, r/p/f<=1
   S  grid cells x a seek(tp, o) gate that the explorer may release at every choice point between assignment and the
      first delivery / raised exception / position() result (r<=1 at quiescent points, p<=1 inside callback cascades);
      thorough: three targets (visible record, log start, above the LSO) on v3 and the seek combined with one fault
@@ -33,8 +36,8 @@ TXN_LOG = [["p", 1], ["p", 1], ["p", 1], ["d", 1, 1], ["c", 1], ["d", 2, 1], ["p
 # offsets: 0 p | 1 p | 2 p | 3 data pid1 | 4 COMMIT pid1 | 5 data pid2 (open) | 6 p      LSO = 5, HW = 7, log start 2
 LEGACY_LOG = ["v1", "v1", "v1", "v1", "v1gz2", "v1"]  # 7 offsets, log start 2
 LOG_START, END, LSO = 2, 7, 5
-COMMITTED = {"absent": None, "inside": 3, "marker": 4, "unstable": 6, "end": 7, "below": 1, "beyond": 9}
-LEGACY_COMMITTED = ("absent", "inside", "end", "below", "beyond")
+COMMITTED = {"absent": None, "inside": 3, "marker": 4, "unstable": 6, "end": 7, "below": 1, "beyond": 9, "zero": 0}
+LEGACY_COMMITTED = ("absent", "inside", "end", "below", "beyond", "zero")
 
 ERRS = {"OffsetFetch": [14, 16, 15], "ListOffsets": [6, 3, 5], "FindCoordinator": [15]}
 #  COORDINATOR_LOAD_IN_PROGRESS, NOT_COORDINATOR, COORDINATOR_NOT_AVAILABLE | NOT_LEADER, UNKNOWN_TOPIC_OR_PARTITION, LEADER_NOT_AVAILABLE | COORDINATOR_NOT_AVAILABLE
@@ -42,20 +45,22 @@ FAULTS = {"faults": ["drop-before", "drop-after", "lose", "err"], "fault_apis": 
           "errs": ERRS}
 
 
-def expectation(committed, policy, isolation, cap, group):
+def expectation(committed, policy, isolation, cap, group, log_start=LOG_START):
     """Where consumption must start, from the grid cell alone: an offset or ["raise", exception name]."""
     latest = LSO if (isolation == "read_committed" and cap >= 2) else END
-    if group and committed is not None and LOG_START <= committed <= END:
+    if group and committed is not None and log_start <= committed <= END:
         return committed
     out_of_range = group and committed is not None
     if policy == "earliest":
-        return LOG_START
+        return log_start
     if policy == "latest":
         return latest
     return ["raise", "OffsetOutOfRangeError" if out_of_range else "NoOffsetForPartitionError"]
 
 
 def cells(ctx):
+    """(cap, isolation, policy, group, committed name, log start).  Log start 2 (retention) for the full committed range;
+    log start 0 with nothing committed and with a committed offset of exactly 0 (the first record of an untruncated log)."""
     out = []
     for cap in (3, 2, 1, 0):
         legacy = cap < 2
@@ -66,31 +71,34 @@ def cells(ctx):
                 for group in (True, False):
                     names = (LEGACY_COMMITTED if legacy else tuple(COMMITTED)) if group else ("absent",)
                     for cname in names:
-                        out.append((cap, isolation, policy, group, cname))
+                        out.append((cap, isolation, policy, group, cname, LOG_START))
+                    for cname in (("zero", "absent") if group else ()):
+                        out.append((cap, isolation, policy, group, cname, 0))
     return out
 
 
-def cell_params(cap, isolation, policy, group, cname):
+def cell_params(cap, isolation, policy, group, cname, log_start=LOG_START):
     legacy = cap < 2
     versions = {"ListOffsets": [0, cap]}
     if legacy:
         versions["Fetch"] = [0, 3 if cap == 1 else 2]
-        log = {"shapes": LEGACY_LOG, "log_start": LOG_START}
+        log = {"shapes": LEGACY_LOG, "log_start": log_start}
     else:
-        log = {"txn": TXN_LOG, "log_start": LOG_START}
+        log = {"txn": TXN_LOG, "log_start": log_start}
     committed = COMMITTED[cname]
     p = dict(FAULTS, logs={"0": log}, group="g" if group else None, policy=policy, isolation=isolation, versions=versions,
              coordinator=1, baseline="net",
-             expect_start={"0": expectation(committed, policy, isolation, cap, group)})
+             expect_start={"0": expectation(committed, policy, isolation, cap, group, log_start)})
     if group and committed is not None:
         p["committed"] = {"0": committed}
-        if not LOG_START <= committed <= END:
+        if not log_start <= committed <= END:
             p["expect_oor"] = {"0": committed}
     return p
 
 
-def cell_name(cap, isolation, policy, group, cname):
-    return f"v{cap}/{'rc' if isolation == 'read_committed' else 'ru'}/{policy}/{'group' if group else 'nogroup'}/{cname}"
+def cell_name(cap, isolation, policy, group, cname, log_start=LOG_START):
+    return (f"v{cap}/{'rc' if isolation == 'read_committed' else 'ru'}/{policy}/{'group' if group else 'nogroup'}/{cname}"
+            + ("" if log_start == LOG_START else f"-ls{log_start}"))
 
 
 G1P = ["getone", [0]]
@@ -101,7 +109,7 @@ def scenarios(ctx):
     quick = ctx.quick
     out = []
     for cell in cells(ctx):
-        cap, isolation, policy, group, cname = cell
+        cap, isolation, policy, group, cname, log_start = cell
         base = cell_params(*cell)
         name = cell_name(*cell)
         progs = [("get", [[G1P]]), ("pos", [[PO]])]
@@ -116,7 +124,7 @@ def scenarios(ctx):
                 b = [{"f": 1}, {"r": 1}, {"p": 1}]
             out.append((f"G/{name}/{pname}", dict(base, program=prog), b))
         # seek injected at every choice point between assignment and first delivery
-        if quick and (cap in (2, 0) or cname in ("marker", "end", "unstable")):
+        if quick and (cap in (2, 0) or cname in ("marker", "end", "unstable") or log_start != LOG_START):
             continue
         targets = [3] if (quick or cap != 3) else [3, 2, 6]
         for o in targets:
@@ -131,6 +139,29 @@ def scenarios(ctx):
                             and cname in ("absent", "inside", "beyond", "below")):
                         b = [{"r": 1, "f": 1}, {"p": 1, "f": 1}]  # a fault on the lookup and the seek in the same run
                     out.append((f"S/{name}/{basel}/seek{o}/{pname}", dict(base, program=prog, baseline=basel, inject_seek=[0, o]), b))
+    out.extend(two_partition_scenarios(ctx))
+    return out
+
+
+def two_partition_scenarios(ctx):
+    """Family T: two partitions of one manual assignment whose committed-offset lookups are staggered: the leader of t-1 is
+    elected only some time after assign() (metadata says LEADER_NOT_AVAILABLE until then) and the coordinator answers
+    OffsetFetch slowly, so the lookup for t-1 is registered while the OffsetFetch for t-0 is still in flight.  Each
+    partition must still start at its own committed offset (t-0: 3, t-1: 1; neither equals a reset result)."""
+    out = []
+    for policy in ("earliest", "latest", "none"):
+        for delay, after in ((40, 60), (0, 60), (40, 0)):
+            if ctx.quick and (delay, after) != (40, 60) and policy != "latest":
+                continue
+            for basel in ("net", "app"):
+                p = dict(FAULTS, logs={"0": {"txn": TXN_LOG, "log_start": LOG_START}, "1": {"txn": [["p", 1], ["p", 1], ["p", 1]]}},
+                         group="g", policy=policy, isolation="read_uncommitted", coordinator=0, baseline=basel,
+                         committed={"0": 3, "1": 1}, expect_start={"0": 3, "1": 1}, program=[],
+                         offset_fetch_delay_ms=delay)
+                if after:
+                    p["late_leader"] = {"part": 1, "after_ms": after}
+                b = [{"r": 1}, {"p": 1}, {"f": 1}]
+                out.append((f"T/{policy}/{basel}/delay{delay}-elect{after}", p, b))
     return out
 
 
